@@ -13,7 +13,7 @@ BASE = {"norad": 25544, "cls": 1, "desig": 1, "dyy": 98, "dlaunch": 67, "eyy": 1
         "bssgn": 1, "bsmant": 30197, "bsesgn": -1, "bsexp": 4, "elnb": 999,
         "incl": 516421, "raan": 2362139, "ecc": 3381, "argp": 478509, "ma": 476767, "mm": 1554198229, "rev": 11173}
 CORNER = {"norad": {0, 5, 99999, 101}, "cls": {1, 2, 3}, "desig": {0, 1, 2, 3, 4}, "dyy": {57, 99, 0, 56}, "dlaunch": {1, 999, 10},
-          "eyy": {57, 99, 0, 56, 16}, "edoy": {1, 365, 59, 60}, "efrac": {0, 1, 99999999, 50000000},
+          "eyy": {57, 99, 0, 56, 16}, "edoy": {1, 365, 59, 60, 366}, "efrac": {0, 1, 99999999, 50000000},
           "ndsgn": {-1, 1}, "nd": {0, 1, 2182, 99999999}, "nddsgn": {-1, 1}, "nddmant": {0, 10000, 99999, 12345},
           "nddesgn": {-1, 1}, "nddexp": {0, 1, 9, 5}, "bssgn": {-1, 1}, "bsmant": {0, 10000, 99999, 11606},
           "bsesgn": {-1, 1}, "bsexp": {0, 1, 9, 3}, "elnb": {0, 9, 1000, 2927, 9999},
@@ -37,7 +37,7 @@ def run(ctx):
                 "values each: 0, 1, max, boundary years 57/99/00/56, both signs, exponents -9..+1, blank/full designator, "
                 "element numbers up to 9999); distinct/non-trivial = distinct sets of fields changed; plus every multi-TLE "
                 "text of <= MaxLen lines from 9 line kinds")
-    corner = CORNER if thorough else {k: set(sorted(v)[:3]) | ({max(v)} if k in ("elnb", "mm", "rev", "norad", "bsexp", "nddexp") else set()) for k, v in CORNER.items()}
+    corner = CORNER if thorough else {k: set(sorted(v)[:3]) | ({max(v)} if k in ("elnb", "mm", "rev", "norad", "bsexp", "nddexp", "edoy") else set()) for k, v in CORNER.items()}
     name, mc, cl = tlcmod.wrap("Tle", {"Base": rec(BASE), "Corner": fn(corner)})
     cfg = "INIT Init\nNEXT Next\n" + cl + "INVARIANT RoundTrip\nINVARIANT WellFormed\nINVARIANT CorruptionDetected\nCHECK_DEADLOCK FALSE\n"
     r = ctx.tlc(name, label="Tle field pairs", cfg_text=cfg, extra_files={name + ".tla": mc}, workers=16, dump=True, timeout=2400)
